@@ -6,3 +6,4 @@ import RSVerif.Properties.C05
 #print axioms RS.decode_reads_only_received
 #print axioms RS.oneshot_stale_indep
 #print axioms RS.source_global_state
+#print axioms RS.source_no_ambient_inputs
